@@ -1,4 +1,4 @@
 From Coq Require Import extraction.Extraction ExtrOcamlBasic.
 Require Import Ojg.Base.Bytes Ojg.Base.Jv Ojg.Json.Machine Ojg.Json.Ref Ojg.Json.Show.
 Extraction Language OCaml.
-Extraction "model.ml" model_parse spec_accepts spec_parse.
+Extraction "model.ml" model_parse model_parse_chunks spec_accepts spec_parse.
